@@ -10,6 +10,7 @@ def touches : FsOp → FName → Prop
   | .write f _, g => g = f
   | .close _, _ => False
   | .replace s t, g => g = s ∨ g = t
+  | .unlink f, g => g = f
 
 theorem set_same (d : Dir) (f : FName) (v : Option Bytes) : d.set f v f = v := by simp [Dir.set]
 theorem set_other (d : Dir) (f g : FName) (v : Option Bytes) (h : g ≠ f) : d.set f v g = d g := by
@@ -31,6 +32,7 @@ theorem applyOp_frame (d : Dir) (op : FsOp) (g : FName) (h : ¬ touches op g) : 
     cases d s with
     | none => rfl
     | some b => show ((d.set t (some b)).set s none) g = d g; rw [set_other _ _ _ _ h1, set_other _ _ _ _ h2]
+  | unlink f => exact set_other _ _ _ _ h
 
 theorem run_nil (d : Dir) : run d [] = d := rfl
 theorem run_cons (d : Dir) (o : FsOp) (ops : List FsOp) : run d (o :: ops) = run (applyOp d o) ops := rfl
@@ -109,6 +111,7 @@ theorem crashAt_crashOf (ops : List FsOp) (n : Nat) (m : Option Nat) : CrashOf o
         | openTrunc f => simp [crashAt]; exact .nil _
         | close f => simp [crashAt]; exact .nil _
         | replace s t => simp [crashAt]; exact .nil _
+        | unlink f => simp [crashAt]; exact .nil _
     | succ n =>
       have : crashAt (o :: r) (n + 1) m = o :: crashAt r n m := by simp [crashAt]
       rw [this]
